@@ -1037,7 +1037,9 @@ func c19RunP2(c *c19Case, r *core.Rec) {
 						return
 					}
 				}
-				_, verr = d.Repair(len(c.Muts) == 2)
+				if _, verr = d.Repair(len(c.Muts) == 2); verr != nil {
+					_, verr = d.Repair(len(c.Muts) == 2) // a refused Repair, asked again
+				}
 			}
 		})
 		runtime.ReadMemStats(&ms1)
@@ -1259,10 +1261,18 @@ func c19RunP1(c *c19Case, r *core.Rec) {
 						return
 					}
 				}
+				// a refused call is made a second time on the same object (a refusal must not be forgotten by the time of
+				// the next call)
 				if _, verr = d.VerifyAllData(); verr != nil {
+					_, verr = d.VerifyAllData()
+					if _, rerr := d.Repair(len(c.Muts) == 2); rerr != nil {
+						d.Repair(len(c.Muts) == 2)
+					}
 					return
 				}
-				_, verr = d.Repair(len(c.Muts) == 2)
+				if _, verr = d.Repair(len(c.Muts) == 2); verr != nil {
+					_, verr = d.Repair(len(c.Muts) == 2)
+				}
 			}
 		})
 		runtime.ReadMemStats(&ms1)
